@@ -24,7 +24,8 @@ def register(reg):
         raises={'FailedParse': [f'ctx.states.state_stack == old_ctx.states.state_stack[:-1] + [out_fail_frame(f, {OTOP})]',
                                 f'not out_ok(f, {OTOP})', f'spec_same_text({OTOP}, {TOP})',
                                 f'{TOP}.cutseen == ({OTOP}.cutseen or out_cut(f, {OTOP}))']},
-        propagates=[GROW, 'implies(not exc_inside(exc), ctx.states.state_stack == old_ctx.states.state_stack)'],
+        propagates=[GROW, 'implies(not exc_inside(exc), ctx.states.state_stack == old_ctx.states.state_stack)',
+                    f'implies(exc_is(exc, "ParseException"), not out_ok(f, {OTOP}))'],
         note='generic contract of a parse function: depth kept, frames below the top untouched, outcome a function '
              'of (function, top frame, world); on failure only the cut flag of the top frame is meaningful')
 
